@@ -31,7 +31,7 @@ def init : St := {}
 def getI (st : St) (two : Bool) : Inst :=
   if two then
     -- the second instance shares the node, the transaction table and the consensus parameters
-    { st.b with led := { st.b.led with node := st.a.led.node, txs := st.a.led.txs, p := st.a.led.p } }
+    { st.b with led := { st.b.led with node := st.a.led.node, txs := st.a.led.txs, shape := st.a.led.shape, p := st.a.led.p } }
   else st.a
 
 def setI (st : St) (two : Bool) (i : Inst) : St := if two then { st with b := i } else { st with a := i }
@@ -269,6 +269,12 @@ def instStepN (st : St) (two : Bool) (args : List String) : St × String :=
     | some n =>
       if (AMap.get st.known w).isNone then (st, "bad-op") else
       ((List.range n).foldl (fun st _ => (instStep st two ["impstep", w]).1) st, "ok")
+  | ["impstepn", w, b] =>
+    -- one batch with `notify B` handled by the follower while the import worker waits in suspend: the worker reads the
+    -- follower's tip inside the suspended window, so the notification simply comes first
+    let (st1, o1) := instStep st two ["notify", b]
+    let (st2, o2) := instStep st1 two ["impstep", w]
+    (st2, (splitOut o1).1 ++ "/" ++ o2)
   | ["importq", w, how, ns] =>
     -- `import`, answering only whether it succeeded (neither the status nor the address list): a wrong address
     -- set then shows at the observations that have a specification (use, bal, utxos, twin)
